@@ -10,7 +10,7 @@ OPS = ["add", "add", "update", "update", "remove", "flush"]
 def _threads(tier, wd):
     """Thread-level contention for one unique value: BTreeConc.tla with Uniq = TRUE exhaustively, and the real
     BTreeIndex under every schedule at its yield points (validated against BTreeConcTrace)."""
-    c = c10._conc(tier, wd, groups=["uniq"], cfgs=["MC_BTreeConc_uniq.cfg"])
+    c = c10._conc(tier, wd, groups=["uniq", "uprobe"], cfgs=["MC_BTreeConc_uniq.cfg"])
     vlib.log(f"[C04] X/T threads: model {c['mc_states']} states; {c['schedules']} schedules, {c['events']} events, "
              f"failures={len(c['failures'])}")
     n = 0
